@@ -3,6 +3,7 @@
 // rules/C02.py requires each detector to give exactly the verdict named in its EXPECT table for these records.
 #include "rkcommon/tasking/detail/TaskSys.h"
 #include "rkcommon/tasking/detail/async_task.inl"
+#include "rkcommon/tasking/detail/enkiTS/LockLessMultiReadPipe.h"
 
 #include <atomic>
 #include <functional>
@@ -146,6 +147,79 @@ namespace rkverif {
       rkcommon::tasking::detail::scheduleTaskInternal(task);
     }
 
+    // ---- R-C02-7: sleep/wake handshake (register, re-check, sleep / publish, wake)
+    struct Handshake
+    {
+      volatile int32_t waiting;
+      enki::semaphoreid_t sem;
+      enki::LockLessMultiReadPipe<4, int> pipe;
+
+      void wake()
+      {
+        enki::SemaphoreSignal(sem, waiting);
+      }
+
+      void sleepRegisteredFirst()  // accepted
+      {
+        enki::AtomicAdd(&waiting, 1);
+        if (pipe.IsPipeEmpty())
+          enki::SemaphoreWait(sem);
+        enki::AtomicAdd(&waiting, -1);
+      }
+
+      void sleepCheckedFirst()  // lost wake-up: a task published between the check and the registration
+      {
+        if (pipe.IsPipeEmpty()) {
+          enki::AtomicAdd(&waiting, 1);
+          enki::SemaphoreWait(sem);
+          enki::AtomicAdd(&waiting, -1);
+        }
+      }
+
+      void sleepUnregistered()  // the waiter count is raised only after the sleep
+      {
+        if (pipe.IsPipeEmpty())
+          enki::SemaphoreWait(sem);
+        enki::AtomicAdd(&waiting, 1);
+        enki::AtomicAdd(&waiting, -1);
+      }
+
+      void publishThenWake(int v)  // accepted
+      {
+        if (pipe.WriterTryWriteFront(v))
+          wake();
+      }
+
+      void publishFenceThenWake(int v)  // accepted by the fence clause as well: full fence between pipe write and count read
+      {
+        if (pipe.WriterTryWriteFront(v)) {
+          __sync_synchronize();
+          wake();
+        }
+      }
+
+      void sleepPlainIncrement()  // registration is not a read-modify-write (no full fence)
+      {
+        ++waiting;
+        if (pipe.IsPipeEmpty())
+          enki::SemaphoreWait(sem);
+        enki::AtomicAdd(&waiting, -1);
+      }
+
+      void publishNoWake(int v)  // the task sits in the pipe, nobody is woken
+      {
+        if (!pipe.WriterTryWriteFront(v))
+          return;
+      }
+
+      void wakeThenPublish(int v)  // woken workers find nothing, then the task arrives unannounced
+      {
+        wake();
+        bool ok = pipe.WriterTryWriteFront(v);
+        (void)ok;
+      }
+    };
+
     // ---- R-C02-3: outside the closure the result member is only read
     struct MovesOut
     {
@@ -184,6 +258,15 @@ namespace rkverif {
 
     inline void instantiate()
     {
+      Handshake hs;
+      hs.sleepRegisteredFirst();
+      hs.sleepCheckedFirst();
+      hs.sleepUnregistered();
+      hs.publishThenWake(1);
+      hs.publishFenceThenWake(1);
+      hs.sleepPlainIncrement();
+      hs.publishNoWake(1);
+      hs.wakeThenPublish(1);
       MovesOut m;
       Copies k;
       (void)m.get();
